@@ -213,10 +213,14 @@ func runC17(c *eng.Ctx, tier string) {
 	// the upload call
 	var uploads []*ssa.Call
 	doBackup := anchor(p, "server", "(*Server).doBackup")
-	eng.Instrs(task, func(in ssa.Instruction) {
+	// the upload: the call of doBackup, in the task or in a helper the loop body was moved to
+	eng.InstrsDeep(task, func(g *ssa.Function, in ssa.Instruction) {
 		if call, ok := in.(*ssa.Call); ok {
 			cal := eng.Callee(&call.Call)
-			if cal != nil && (cal == doBackup || reachesPutObject(p, cal)) {
+			if cal == nil {
+				return
+			}
+			if (doBackup != nil && cal == doBackup) || (doBackup == nil && g == task && reachesPutObject(p, cal)) {
 				uploads = append(uploads, call)
 			}
 		}
@@ -226,6 +230,15 @@ func runC17(c *eng.Ctx, tier string) {
 		return
 	}
 	for _, up := range uploads {
+		g := up.Parent()
+		var site ssa.CallInstruction // the call of g in the task, when g is a helper
+		if g != task {
+			site = eng.UniqueCallSite(g)
+			if site == nil || site.Parent() != task {
+				c.Undecided("R-C17-3", g, up.Pos(), eng.CallStr(&up.Call), "the upload is neither in the task nor in a helper the task calls from one place")
+				continue
+			}
+		}
 		// R-C17-3: dominated by g != last
 		var gen *ssa.Call
 		var last ssa.Value
@@ -241,26 +254,61 @@ func runC17(c *eng.Ctx, tier string) {
 			}
 		}
 		if gen == nil {
-			c.Bad("R-C17-3", task, up.Pos(), eng.CallStr(&up.Call), "the upload is edge-dominated by db.WriteGen() != last (uploads happen only after a write)", "holding here: "+eng.FactsString(up))
+			c.Bad("R-C17-3", g, up.Pos(), eng.CallStr(&up.Call), "the upload is edge-dominated by db.WriteGen() != last (uploads happen only after a write)", "holding here: "+eng.FactsString(up))
 			continue
 		}
-		c.Ok("R-C17-3", task, up.Pos(), eng.CallStr(&up.Call), "edge-dominated by WriteGen() != last")
+		c.Ok("R-C17-3", g, up.Pos(), eng.CallStr(&up.Call), "edge-dominated by WriteGen() != last")
 		// same iteration: the gen call lies in the loop and dominates the upload (R-C17-4)
-		c.Check(eng.InstrDominates(gen, up) && eng.InCycle(gen.Block()), "R-C17-4", task, gen.Pos(), "generation read "+eng.CallStr(&gen.Call), "the generation compared and remembered is read in the same iteration, before the file is read", "not in the loop before the upload")
-		// sources of last
+		inLoop := eng.InCycle(gen.Block())
+		if site != nil {
+			inLoop = eng.InCycle(site.Block())
+		}
+		c.Check(eng.InstrDominates(gen, up) && inLoop, "R-C17-4", g, gen.Pos(), "generation read "+eng.CallStr(&gen.Call), "the generation compared and remembered is read in the same iteration, before the file is read", "not in the loop before the upload")
+		uerr := saveErr(up)
+		// sources of last (in the task: the loop-carried variable)
+		lastParam, _ := eng.Origin(last).(*ssa.Parameter)
+		if site != nil {
+			if lastParam == nil || lastParam.Parent() != g {
+				c.Bad("R-C17-3", g, up.Pos(), "generation compared with: "+eng.ValStr(last), "the generation covered by the last successful upload, handed in by the task", "another value")
+				continue
+			}
+			last = eng.OriginX(last)
+		}
 		leaves, phis := eng.PhiLeaves(last)
 		if len(phis) == 0 {
 			c.Bad("R-C17-3", task, up.Pos(), "loop-carried generation "+eng.ValStr(last), "last is a loop-carried variable", "not a phi")
 			continue
 		}
-		uerr := saveErr(up)
 		for _, lf := range leaves {
-			site := "source of last: " + eng.ValStr(lf.Val) + " via " + lf.From.Comment + "#" + itoa(lf.From.Index)
+			lsite := "source of last: " + eng.ValStr(lf.Val) + " via " + lf.From.Comment + "#" + itoa(lf.From.Index)
 			if k, isC := eng.ConstInt(lf.Val); isC && k == 0 {
-				c.Check(!eng.InCycle(lf.From) || true, "R-C17-3", task, lf.Phi.Pos(), site, "initial value 0 (never a real generation)", "")
+				c.Ok("R-C17-3", task, lf.Phi.Pos(), lsite, "initial value 0 (never a real generation)")
 				continue
 			}
-			if lf.Val == ssa.Value(gen) {
+			if site != nil && lf.Val == site.Value() {
+				// what the helper answers: the generation it was given, or the
+				// one it read, the latter only after a successful upload
+				for _, r := range eng.Returns(g) {
+					rv := eng.RetVals(r)[0]
+					rsite := "answer of " + eng.FName(g) + ": " + eng.InstrStr(r)
+					switch {
+					case eng.Origin(rv) == ssa.Value(lastParam):
+						c.Ok("R-C17-3", g, r.Pos(), rsite, "the generation handed in (nothing new is covered)")
+					case eng.Origin(rv) == ssa.Value(gen):
+						okk := false
+						for _, cond := range eng.FactsAt(r) {
+							if v, isNil, isE := cond.ErrCheck(); isE && isNil && eng.Same(v, uerr) {
+								okk = true
+							}
+						}
+						c.Check(okk, "R-C17-3", g, r.Pos(), rsite, "last takes the new generation only on the nil-error edge of the upload (a failed upload is retried)", "the return is not dominated by a successful upload")
+					default:
+						c.Bad("R-C17-3", g, r.Pos(), rsite, "last is only ever 0 or the generation read before a successful upload", "other value "+eng.ValStr(rv))
+					}
+				}
+				continue
+			}
+			if site == nil && lf.Val == ssa.Value(gen) {
 				okk := false
 				facts := eng.BlockFacts(lf.From)
 				for _, f := range facts {
@@ -268,10 +316,10 @@ func runC17(c *eng.Ctx, tier string) {
 						okk = true
 					}
 				}
-				c.Check(okk, "R-C17-3", task, lf.Phi.Pos(), site, "last takes the new generation only on the nil-error edge of the upload (a failed upload is retried)", "the edge is not dominated by a successful upload")
+				c.Check(okk, "R-C17-3", task, lf.Phi.Pos(), lsite, "last takes the new generation only on the nil-error edge of the upload (a failed upload is retried)", "the edge is not dominated by a successful upload")
 				continue
 			}
-			c.Bad("R-C17-3", task, lf.Phi.Pos(), site, "last is only ever 0 or the generation read before a successful upload", "other source")
+			c.Bad("R-C17-3", task, lf.Phi.Pos(), lsite, "last is only ever 0 or the generation read before a successful upload", "other source")
 		}
 	}
 	// WriteGen never 0: kv.gen is 1 in the open literal, and the creating save bumps it
